@@ -33,6 +33,25 @@ def main(inp, outp):
                 res["violations"].append({"key": key, "what": what, "data": data})
 
     truth_cache = {}
+    # body states computed in ANOTHER process (no cache of this one can have touched them)
+    body_table = {}
+    if job.get("body_ticks"):
+        import subprocess
+        code = ("import json,sys,os\nfrom datetime import timedelta\nfrom beyond.config import config\n"
+                "config.update({'eop': {'folder': os.path.join(sys.argv[1], 'tests', 'data', 'pole'), 'type': 'all', 'missing_policy': 'pass'}})\n"
+                "from beyond.dates import Date\nfrom beyond.env.solarsystem import get_body\nimport numpy as np\n"
+                "E=Date(2018,5,4,12,0,0); out={}\n"
+                "for b in ('Sun','Moon'):\n"
+                "    for t in json.loads(sys.argv[2]):\n"
+                "        o=get_body(b).propagate(E+timedelta(seconds=30*t)); out[b+':'+str(t)]=[o.frame.name]+[float(x) for x in np.asarray(o.copy(form='cartesian'),float)]\n"
+                "print(json.dumps(out))\n")
+        penv = dict(os.environ)
+        outp_ = subprocess.run([sys.executable, "-c", code, job["repo"], json.dumps(job["body_ticks"])], capture_output=True, text=True, env=penv)
+        body_table = json.loads(outp_.stdout.strip().splitlines()[-1])
+    from beyond.env.solarsystem import get_body
+    from beyond.frames.stations import create_station
+    from beyond.utils.measures import Range, Azimut, Elevation, Doppler
+    stations = {1: create_station("VfSes1", (43.6, 1.44, 172.0)), 2: create_station("VfSes2", (-33.9, 18.4, 50.0))}
 
     def truth(traj, t):
         if (traj, t) not in truth_cache:
@@ -104,6 +123,36 @@ def main(inp, outp):
                     objs.append(ccsds.loads(o))
                 elif op == "pickle":
                     objs.append(pickle.loads(pickle.dumps(o)))
+                elif op == "measure":
+                    sta = stations[x]
+                    path = (sta, "sat")
+                    got_m = [Range(path, o.date, 0).from_orbit(o).value, Azimut(path, o.date, 0).from_orbit(o).value,
+                             Elevation(path, o.date, 0).from_orbit(o).value, Doppler(path, o.date, 0).from_orbit(o).value]
+                    m_ = heaps[step][i - 1]
+                    tru = StateVector(truth(m_["traj"], m_["t"]), EPOCH + TICK * m_["t"], "cartesian", "EME2000").copy(frame=sta, form="spherical")
+                    want_m = [float(tru.r), float(tru.theta), float(tru.phi), float(tru.r_dot)]
+                    tolr = 1e-3 + m_["nl"] * (2e-3 + 1.5e-3 * span_s) + m_["ni"] * 5e-2
+                    okm = abs(got_m[0] - want_m[0]) <= tolr and abs(got_m[3] - want_m[3]) <= 1e-5 + m_["nl"] * 3e-3 + m_["ni"] * 2e-4 and all(
+                        abs((got_m[q] - want_m[q] + np.pi) % (2 * np.pi) - np.pi) <= (tolr + 1e-3) / max(want_m[0], 1.0) + 1e-9 for q in (1, 2))
+                    clause("measures of an object from a station are the topocentric quantities of what the object denotes, whatever was measured before",
+                           okm, "session/measure", f"step {step + 1} {act}: {got_m} expected {want_m}", data)
+                elif op == "body":
+                    bname, lab_, mut = y
+                    d_ = EPOCH + TICK * x
+                    st_ = get_body(bname).propagate(d_ if lab_ == "UTC" else d_.change_scale(lab_))
+                    ref_ = body_table[f"{bname}:{x}"]
+                    got_b = np.asarray(st_.copy(form="cartesian"), float)
+                    # labels other than UTC: the instant is the same to the microsecond; the body moves by |v| x 2 us at most
+                    tol_b = 1e-9 * np.linalg.norm(ref_[1:4]) + 2e-6 * np.linalg.norm(ref_[4:7]) + 1e-6
+                    clause("an analytical body's state at a date does not depend on what was asked, or done to earlier answers, before",
+                           st_.frame.name == ref_[0] and np.linalg.norm(got_b[:3] - np.asarray(ref_[1:4])) <= tol_b
+                           and np.linalg.norm(got_b[3:] - np.asarray(ref_[4:7])) <= 1e-7 * max(1.0, np.linalg.norm(ref_[4:7])),
+                           "session/body", f"step {step + 1} {act}: {bname} differs from the state computed in a fresh process by "
+                           f"{np.linalg.norm(got_b[:3] - np.asarray(ref_[1:4])):.4g} m, {np.linalg.norm(got_b[3:] - np.asarray(ref_[4:7])):.4g} m/s", data)
+                    if mut == "frame":
+                        st_.frame = "ITRF"
+                    elif mut == "form":
+                        st_.form = "spherical"
                 else:
                     raise ValueError(op)
             except Exception as e:
